@@ -90,7 +90,7 @@ variable (c : ShCfg)
 
 /-- The grant is a valid master index (in every reachable state, for `n > 0`). -/
 theorem grant_lt_next (s : ShState) (x : BusIn) (h : s.grant < c.n) : (next c s x).grant < c.n :=
-  RoundRobin.next_lt .withdraw _ true h
+  RoundRobin.next_lt .withdraw (fun i => (x.ms i).cyc) true h
 
 theorem grant_lt_run (hn : 0 < c.n) (ins : List BusIn) : ((machine c).run ins).grant < c.n := by
   unfold Machine.run
@@ -135,7 +135,7 @@ def GrantsOk (s : XbState) : Prop := ∀ j, j < c.m → grant s j < c.n
 theorem grantsOk_next (s : XbState) (x : BusIn) (h : GrantsOk c s) : GrantsOk c (next c s x) := by
   intro j hj
   rw [grant_next c s x j hj]
-  exact RoundRobin.next_lt .withdraw _ true (h j hj)
+  exact RoundRobin.next_lt .withdraw (colReq c x j) true (h j hj)
 
 theorem grantsOk_init (hn : 0 < c.n) : GrantsOk c (init c) := by
   intro j hj
